@@ -401,6 +401,9 @@ class CryptoEngine:
         self._otp_enc: Optional[bytes] = None
         self._otp_dec: Optional[bytes] = None
 
+        self._b9_extdata_otp: Optional[bytes] = None
+        self._b9_extdata_keygen: Optional[bytes] = None
+
         self._id0: Optional[bytes] = None
 
         for keyslot, keys in _base_key_x.items():
